@@ -53,6 +53,8 @@ type Case struct {
 	Left    *string `json:"left,omitempty"`
 	Right   *string `json:"right,omitempty"`
 	Mode    int     `json:"mode,omitempty"`
+	// quote cases
+	Trailing bool `json:"trailing,omitempty"`
 	// search stream
 	Target string `json:"target,omitempty"`
 	// provenance (not needed for replay)
@@ -257,6 +259,9 @@ type outcome struct {
 }
 
 func runModelCase(c Case) (o outcome) {
+	if c.Kind == "quote" {
+		return runQuoteCase(c)
+	}
 	data := unhex(c.Data)
 	var in, out string
 	var err error
@@ -884,7 +889,7 @@ func main() {
 }
 
 func runModel(seed uint64, n int, out string, rc *Case) {
-	hdr := "From Verif Require Import Lib.Base Decode.GoSlice Decode.Node Decode.ProofEntries Decode.Cases.\n"
+	hdr := "From Verif Require Import Lib.Base Decode.GoSlice Decode.Node Decode.ProofEntries Decode.Quote Decode.Cases.\n"
 	wb := coqout.NewWriter(out, hdr, "run_case", "cout_eqb", 150)
 	sum := coqout.NewSummary("per decoder (Depth/Key/LeafNode/InternalNode.SizedUnmarshalBinary, node.UnmarshalBinary, verifyProof walk via hook, VerifyProof): 30% valid encodings made by the real marshalers (full, compact v0, compact v1), 25% length-field mutants (0, +-1, max, len, +k, 2^31, random), 15% truncations at field boundaries, 18% generic mutations (bit flips, kind bytes, splices, appended garbage), 12% random bytes; proof entry lists: random pre-order subtrees for v0/v1, chains of depth 126..200, list mutations (drop/extra/empty/kind/truncate/swap/unsupported version); encoders on random nodes. distinct = distinct (kind, input); non-trivial = the real decoder accepted the input (Ok) or the real encoder produced bytes")
 	var cases []Case
@@ -892,7 +897,8 @@ func runModel(seed uint64, n int, out string, rc *Case) {
 		cases = []Case{*rc}
 	} else {
 		r := prng.New(seed)
-		kinds := []string{"depth", "key", "leaf", "leaf", "inode", "inode", "inode", "node", "node", "walk", "walk", "proof", "proof", "enc"}
+		kinds := []string{"depth", "key", "leaf", "leaf", "inode", "inode", "inode", "node", "node", "walk", "walk", "proof", "proof", "enc", "quote", "quote", "quote"}
+		loadQuoteSeeds()
 		// fixed boundary cases first
 		for _, h := range []string{"", "00", "01", "0140", "014000aabb", "01000002", "0100000200", "00010007ffffffff0102", "000000000000", "0000000000000000"} {
 			for _, k := range []string{"depth", "key", "leaf", "inode", "node"} {
@@ -919,6 +925,8 @@ func runModel(seed uint64, n int, out string, rc *Case) {
 				cases = append(cases, genProofCase(rr, k))
 			case "enc":
 				cases = append(cases, genEncCase(rr))
+			case "quote":
+				cases = append(cases, genQuoteCase(rr))
 			default:
 				cases = append(cases, genDecodeCase(rr, k))
 			}
@@ -929,7 +937,7 @@ func runModel(seed uint64, n int, out string, rc *Case) {
 	for _, c := range cases {
 		o := runModelCase(c)
 		sum.Evaluations++
-		key := c.Kind + ":" + c.Data + fmt.Sprint(c.V, c.BadRoot, c.Key, c.Value, c.Label, c.Lbl, c.Mode) + strings.Join(func() []string {
+		key := c.Kind + ":" + c.Data + fmt.Sprint(c.Trailing, c.V, c.BadRoot, c.Key, c.Value, c.Label, c.Lbl, c.Mode) + strings.Join(func() []string {
 			var s []string
 			for _, e := range c.Entries {
 				if e == nil {
@@ -1052,7 +1060,13 @@ func runSearch(seed uint64, n int, out string, rc *Case) {
 				rr := r.Fork()
 				var b []byte
 				origin := "random"
-				if rr.Chance(95) && len(t.seeds) > 0 {
+				if codec, ok := searchCodecs[t.name]; ok && rr.Chance(70) && len(t.seeds) > 0 {
+					// mutate the payload underneath the framing layer
+					if inner, ok := codec.unwrap(t.seeds[rr.Intn(len(t.seeds))]); ok {
+						m, name := mutate(rr, inner)
+						b, origin = codec.wrap(m), "payload:"+name
+					}
+				} else if rr.Chance(95) && len(t.seeds) > 0 {
 					b, origin = mutate(rr, t.seeds[rr.Intn(len(t.seeds))])
 				} else {
 					b = rr.Bytes(rr.Intn(200))
